@@ -6,6 +6,7 @@ const (
 	cstCurrent  = "Current"
 
 	cstYieldFromRangeVar = "ʌ" // v۰
+	cstRedeclVar         = "ɐ" // redeclared variable
 
 	cstPairKey = "Key"
 	cstPairVal = "Val"
